@@ -218,6 +218,7 @@ func (inj *injector) randomSigners(k int) []int {
 type injected struct {
 	snap    *common.Snapshot // with a valid certificate
 	tx      *common.VersionedTransaction
+	extra   []*common.VersionedTransaction // further members of a multi-transaction snapshot
 	chain   *injChain
 	applied map[int]bool
 }
